@@ -100,14 +100,14 @@ var storeAlphabet = []storeMember{
 	{"ca:a/b", "name-unsafe"},
 	{"ca:../x", "name-unsafe"},
 	{"ca:a\\b", "name-unsafe"},
-	{"ca:a b", "name-unsafe"},
+	{"ca:a b", "name-blank"}, // unstated: a blank is a legal file-name character everywhere
 	// everything after the FIRST ':' is the store name: a second ':' is not a file-name-safe character
 	{"ca:a:b", "name-unsafe"},
 	{"ca:a:../../x", "name-unsafe"},
 	{"tsa:t:", "name-unsafe"},
 	{"ca:a\n", "name-unsafe"},
 	{"ca:a\x00", "name-unsafe"},
-	{"ca:\u00e4", "name-unsafe"},
+	{"ca:\u00e4", "name-non-ascii"}, // unstated: a letter outside ASCII
 	{"ca:.", "name-dot"},
 	{"ca:..", "name-dot"},
 	{"tsa:..", "name-dot"},
@@ -127,6 +127,7 @@ type idLabel struct {
 	Bad      string
 	Attrs    [][2]string // x509.subject: the attribute set, written by hand (S is stateOrProvince = ST)
 	SVariant string      // the same identity written with S instead of ST
+	Alt      string      // non-empty: another spelling of a DN of the alphabet (unstated whether/how it is read)
 }
 
 const (
@@ -158,15 +159,15 @@ var (
 var idAlphabet = []idLabel{
 	{V: "*", Tag: "wildcard", Kind: idWild},
 	{V: dnA, Tag: "A", Kind: idX509, Attrs: attrsA, SVariant: dnAs},
-	{V: dnAs, Tag: "A-with-S", Kind: idX509, Attrs: attrsA},
-	{V: dnAsp, Tag: "A-blank-after-comma", Kind: idX509, Attrs: attrsA},
+	{V: dnAs, Tag: "A-with-S", Kind: idX509, Attrs: attrsA, Alt: "S-for-ST"},
+	{V: dnAsp, Tag: "A-blank-after-comma", Kind: idX509, Attrs: attrsA, Alt: "blank-after-comma"},
 	{V: dnAcn, Tag: "A+CN", Kind: idX509, Attrs: attrsAcn, SVariant: dnAcnS},
-	{V: dnAcnS, Tag: "A+CN-with-S", Kind: idX509, Attrs: attrsAcn},
-	{V: dnAcnR, Tag: "A+CN-reordered", Kind: idX509, Attrs: attrsAcn},
+	{V: dnAcnS, Tag: "A+CN-with-S", Kind: idX509, Attrs: attrsAcn, Alt: "S-for-ST"},
+	{V: dnAcnR, Tag: "A+CN-reordered", Kind: idX509, Attrs: attrsAcn, Alt: "reordered"},
 	{V: dnB, Tag: "B", Kind: idX509, Attrs: attrsB, SVariant: dnBs},
-	{V: dnBs, Tag: "B-with-S", Kind: idX509, Attrs: attrsB},
+	{V: dnBs, Tag: "B-with-S", Kind: idX509, Attrs: attrsB, Alt: "S-for-ST"},
 	{V: dnC, Tag: "C", Kind: idX509, Attrs: attrsC, SVariant: dnCs},
-	{V: dnCs, Tag: "C-with-S", Kind: idX509, Attrs: attrsC},
+	{V: dnCs, Tag: "C-with-S", Kind: idX509, Attrs: attrsC, Alt: "S-for-ST"},
 	{V: dnCsub, Tag: "C-without-OU", Kind: idX509, Attrs: attrsCs},
 	{V: dnE, Tag: "E", Kind: idX509, Attrs: attrsE},
 	{V: "unknown-prefix:x", Tag: "other-prefix", Kind: idOther},
@@ -211,6 +212,28 @@ var scopeAlphabet = []scopeMember{
 	{"https://reg.io/a", false, "scheme"},
 	{"reg.io/a:tag", false, "tag"},
 	{"reg.io/a b", false, "blank"},
+}
+
+// unstatedRules: labels the reference can produce for which the property statement names NO rule.
+// A reasonable implementation may accept or reject such documents without breaking the statement,
+// so they are never the reason for a VIOLATION; the code's behaviour on them is recorded.
+var unstatedRules = map[string]string{
+	"override-type-unknown":             "the statement restricts overrides (not on skip, not integrity, skip only for revocation) but names no 'known type' rule",
+	"override-action-unknown":           "no 'known action' rule in the statement",
+	"empty-override-map-on-skip":        "an empty override object on a skip statement: no override is present, but its mere presence may be refused",
+	"identity:empty":                    "the statement speaks of x509.subject identities and the wildcard only",
+	"identity:no-separator":             "the statement speaks of x509.subject identities and the wildcard only",
+	"identity:x509-duplicate-attribute": "such a DN parses and contains C, ST and O",
+	"identity:x509-multi-valued-rdn":    "such a DN parses and contains C, ST and O",
+	"identity:x509-hex-value":           "such a DN parses and contains C, ST and O",
+	"identity-alternative-spelling":     "S for ST, other attribute order, blank after the comma: whether they parse and what they overlap with is not stated",
+	"identity-wildcard-repeated":        "'*' listed twice: the wildcard has no company other than itself",
+	"store:name-blank":                  "'file-name-safe' does not clearly exclude a blank",
+	"store:name-non-ascii":              "'file-name-safe' does not clearly exclude letters outside ASCII",
+	"store-repeated":                    "no rule about listing a store twice",
+	"no-scopes":                         "the statement has no 'at least one scope' rule",
+	"scope-repeated-in-statement":       "the same scope twice inside ONE statement is still used by one statement",
+	"name-case-variant":                 "names differing in letter case only: unique as strings",
 }
 
 var (
